@@ -89,4 +89,6 @@ package protocol
 //@ func UnmarshalLeaderEpochOffsetResponse serves C14
 //@   safety
 //@ func UnmarshalReplicationRequest serves C14
+//@   returns (msg, err)
 //@   safety
+//@   ensures [always-a-message-object] msg != nil
